@@ -6,14 +6,13 @@ the frame well-formed.  Core only.
 namespace Pox.Actions
 open Pox Pox.Packet Pox.Checksum Pox.PktLayout Pox.Actions.Spec
 
-/-- action arguments as the OpenFlow wire format delivers them (6-byte addresses, 32-bit IPv4 addresses, 8-bit ToS,
-16-bit ports); VLAN arguments need no condition, they are reduced to the field width -/
+/-- action arguments as the OpenFlow wire format delivers them (6-byte addresses, 32-bit IPv4 addresses,
+16-bit ports; the ToS octet is reduced to 8 bits); VLAN arguments need no condition, they are reduced to the field width -/
 def ArgsOk : Action → Prop
   | .setDlSrc a => a.length = 6
   | .setDlDst a => a.length = 6
   | .setNwSrc a => a < 4294967296
   | .setNwDst a => a < 4294967296
-  | .setNwTos t => t < 256
   | .setTpSrc p => p < 65536
   | .setTpDst p => p < 65536
   | _ => True
@@ -101,6 +100,22 @@ theorem popTag_wf (f : Frame) (hw : f.WF) : stripVlan {} f = .ok (popTag f) ∧ 
     · simp only [popTag, hpay, Frame.WF]
       exact ⟨he, by rw [← hpay]; exact hp⟩
 
+/-- the specification's own header traversal reaches the same header as the code's -/
+theorem atL3_ifIpv4 (g : IPv4 → Pkt → Pkt) (p : Pkt) : atL3 (ifIpv4 g) p = updIp g p := by
+  cases p with
+  | vlan v n => cases n <;> rfl
+  | _ => rfl
+
+theorem ifL4_eq (gu : Udp → Udp) (gt : Tcp → Tcp) (p : Pkt) : ifL4 gu gt p = updTp gu gt p := by
+  cases p <;> rfl
+
+theorem ifL4_eq' (gu : Udp → Udp) (gt : Tcp → Tcp) : ifL4 gu gt = updTp gu gt := funext (ifL4_eq gu gt)
+
+def tpSrcG (p : Nat) : IPv4 → Pkt → Pkt :=
+  fun h n => .ipv4 h (updTp (fun u => { u with sport := p }) (fun t => { t with sport := p }) n)
+def tpDstG (p : Nat) : IPv4 → Pkt → Pkt :=
+  fun h n => .ipv4 h (updTp (fun u => { u with dport := p }) (fun t => { t with dport := p }) n)
+
 /-- **handlers = field rewrites** on well-formed frames, and the result is well-formed again -/
 theorem handle1_ok (a : Action) (f : Frame) (hw : f.WF) (ha : ArgsOk a) :
     handle1 {} a f = .ok (rewrite1 a f) ∧ (rewrite1 a f).WF := by
@@ -115,31 +130,49 @@ theorem handle1_ok (a : Action) (f : Frame) (hw : f.WF) (ha : ArgsOk a) :
   | setDlSrc a => exact ⟨rfl, ⟨hw.1.dst, ha, hw.1.type⟩, hw.2⟩
   | setDlDst a => exact ⟨rfl, ⟨ha, hw.1.src, hw.1.type⟩, hw.2⟩
   | setNwSrc a =>
+    have e : rewrite1 (.setNwSrc a) f = { f with pay := updIp (fun h n => .ipv4 { h with src := a } n) f.pay } := by
+      simp only [rewrite1, setIp, atL3_ifIpv4]
+    rw [e]
     refine ⟨rfl, hw.1, updIp_wf _ (fun h n => ipSet_wf (fun h => { h with src := a }) ?_ h n) _ hw.2⟩
     intro h hf
     exact ⟨⟨hf.v, hf.hl5, hf.hl, hf.tos, hf.id, hf.flags, hf.frag, hf.ttl, hf.proto, ha, hf.dst, hf.opts⟩, rfl⟩
   | setNwDst a =>
+    have e : rewrite1 (.setNwDst a) f = { f with pay := updIp (fun h n => .ipv4 { h with dst := a } n) f.pay } := by
+      simp only [rewrite1, setIp, atL3_ifIpv4]
+    rw [e]
     refine ⟨rfl, hw.1, updIp_wf _ (fun h n => ipSet_wf (fun h => { h with dst := a }) ?_ h n) _ hw.2⟩
     intro h hf
     exact ⟨⟨hf.v, hf.hl5, hf.hl, hf.tos, hf.id, hf.flags, hf.frag, hf.ttl, hf.proto, hf.src, ha, hf.opts⟩, rfl⟩
   | setNwTos t =>
-    refine ⟨rfl, hw.1, updIp_wf _ (fun h n => ipSet_wf (fun h => { h with tos := t }) ?_ h n) _ hw.2⟩
+    have et : ∀ x : Nat, 4 * (t / 4 % 64) + x % 4 = x % 4 + t % 256 / 4 * 4 := by intro x; omega
+    have e : rewrite1 (.setNwTos t) f =
+        { f with pay := updIp (fun h n => .ipv4 { h with tos := h.tos % 4 + t % 256 / 4 * 4 } n) f.pay } := by
+      simp only [rewrite1, setIp, atL3_ifIpv4, et]
+    rw [e]
+    refine ⟨rfl, hw.1, updIp_wf _ (fun h n => ipSet_wf (fun h => { h with tos := h.tos % 4 + t % 256 / 4 * 4 }) ?_ h n) _ hw.2⟩
     intro h hf
-    exact ⟨⟨hf.v, hf.hl5, hf.hl, ha, hf.id, hf.flags, hf.frag, hf.ttl, hf.proto, hf.src, hf.dst, hf.opts⟩, rfl⟩
+    exact ⟨⟨hf.v, hf.hl5, hf.hl, by show h.tos % 4 + t % 256 / 4 * 4 < 256; omega, hf.id, hf.flags, hf.frag, hf.ttl, hf.proto,
+      hf.src, hf.dst, hf.opts⟩, rfl⟩
   | setTpSrc p =>
+    have e : rewrite1 (.setTpSrc p) f = { f with pay := updIp (tpSrcG p) f.pay } := by
+      simp only [rewrite1, setL4, atL3_ifIpv4, ifL4_eq]; rfl
+    rw [e]
     refine ⟨rfl, hw.1, updIp_wf _ ?_ _ hw.2⟩
     intro h n hwn
     simp only [WFp] at hwn ⊢
     obtain ⟨h1, h2⟩ := updTp_wf (fun u => { u with sport := p }) (fun t => { t with sport := p })
       (fun u hu => ⟨ha, hu.dport⟩) (fun t ht => ⟨⟨ha, ht.dport, ht.seq, ht.ack, ht.res, ht.flags, ht.win, ht.urg⟩, rfl⟩) _ n hwn.2.1
-    exact ⟨⟨hwn.1, h1, by rw [h2]; exact hwn.2.2⟩, by simp [plen, h2]⟩
+    exact ⟨⟨hwn.1, h1, by rw [h2]; exact hwn.2.2⟩, by simp [plen, h2, tpSrcG, tpDstG]⟩
   | setTpDst p =>
+    have e : rewrite1 (.setTpDst p) f = { f with pay := updIp (tpDstG p) f.pay } := by
+      simp only [rewrite1, setL4, atL3_ifIpv4, ifL4_eq]; rfl
+    rw [e]
     refine ⟨rfl, hw.1, updIp_wf _ ?_ _ hw.2⟩
     intro h n hwn
     simp only [WFp] at hwn ⊢
     obtain ⟨h1, h2⟩ := updTp_wf (fun u => { u with dport := p }) (fun t => { t with dport := p })
       (fun u hu => ⟨hu.sport, ha⟩) (fun t ht => ⟨⟨ht.sport, ha, ht.seq, ht.ack, ht.res, ht.flags, ht.win, ht.urg⟩, rfl⟩) _ n hwn.2.1
-    exact ⟨⟨hwn.1, h1, by rw [h2]; exact hwn.2.2⟩, by simp [plen, h2]⟩
+    exact ⟨⟨hwn.1, h1, by rw [h2]; exact hwn.2.2⟩, by simp [plen, h2, tpSrcG, tpDstG]⟩
   | output port ml => exact ⟨rfl, hw⟩
   | enqueue port q => exact ⟨rfl, hw⟩
   | vendor v => exact ⟨rfl, hw⟩
